@@ -84,6 +84,8 @@ type Ctor struct {
 	Generic  bool   // has a bin.Object field (invokeWithLayer & co.)
 	Makes    int    // make( calls in DecodeBare
 	MakesCap int    // ... whose capacity is `headerLen % bin.PreallocateLimit` under `if headerLen > 0`
+	// bin.Object fields that Encode/Decode dereference without a nil check
+	GenericUnchecked int
 }
 
 // Iface is one generated DecodeXxx function.
@@ -240,6 +242,8 @@ type translator struct {
 	st   string // struct name
 	buf  string // buffer argument name
 	s    *Schema
+
+	encUnchecked int // bin.Object fields encoded without a nil check
 }
 
 func (t *translator) sel(e ast.Expr) (string, bool) { // recv.Field
@@ -412,6 +416,18 @@ func (t *translator) decodeField(c *Ctor, body []ast.Stmt) (*Field, string) {
 	if len(body) == 0 {
 		return nil, "empty field block"
 	}
+	// generic (bin.Object) field: if recv.F == nil { return error } before decoding into it
+	nilChecked := false
+	if is, ok := body[0].(*ast.IfStmt); ok && is.Init == nil && len(body) == 2 && len(is.Body.List) == 1 {
+		if be, ok := is.Cond.(*ast.BinaryExpr); ok && be.Op == token.EQL && src(t.p.fset, be.Y) == "nil" {
+			if f, ok := t.sel(be.X); ok && t.p.structs[t.st][f] == "bin.Object" {
+				if _, ok := is.Body.List[0].(*ast.ReturnStmt); ok {
+					nilChecked = true
+					body = body[1:]
+				}
+			}
+		}
+	}
 	// direct: if err := recv.F.Decode(b); err != nil { return }
 	if is, ok := body[0].(*ast.IfStmt); ok && is.Init != nil && len(body) == 1 && isErrReturnBody(is) {
 		as, ok := is.Init.(*ast.AssignStmt)
@@ -422,6 +438,9 @@ func (t *translator) decodeField(c *Ctor, body []ast.Stmt) (*Field, string) {
 						ty := t.structTy(t.p.structs[t.st][f])
 						if ty == nil {
 							return nil, "field " + f + " has unknown encoder type " + t.p.structs[t.st][f]
+						}
+						if ty.K == "generic" && !nilChecked {
+							c.GenericUnchecked++
 						}
 						return &Field{GoName: f, Ty: ty}, ""
 					}
@@ -615,6 +634,9 @@ func (t *translator) encodeValue(stmts []ast.Stmt, x string, goType string) (*Ty
 	call := src(t.p.fset, is.Init)
 	switch call {
 	case fmt.Sprintf("err := %s.Encode(%s)", x, t.buf):
+		if nilChecked && goType == "bin.Object" {
+			return &Ty{K: "generic"}, ""
+		}
 		if nilChecked {
 			name := strings.TrimSuffix(goType, "Class")
 			if goType == name {
@@ -625,6 +647,9 @@ func (t *translator) encodeValue(stmts []ast.Stmt, x string, goType string) (*Ty
 		ty := t.structTy(goType)
 		if ty == nil {
 			return nil, "Encode on unknown type " + goType
+		}
+		if ty.K == "generic" {
+			t.encUnchecked++
 		}
 		return ty, ""
 	case fmt.Sprintf("err := %s.EncodeBare(%s)", x, t.buf):
@@ -868,6 +893,7 @@ func buildSchema(repo string) (*Schema, error) {
 				c.Bad = why
 				continue
 			}
+			c.GenericUnchecked += t.encUnchecked
 			// cross-check decode-derived and encode-derived field lists
 			var df []*Field
 			nFlags := 0
